@@ -10,8 +10,8 @@ from ..models import frame as F
 
 ID = "C19"
 LEVEL = "exploration"
-TIERS = {"quick": {"shards": 16, "budget_s": 120, "random": 2000, "exh_len": 8},
-         "thorough": {"shards": 16, "budget_s": 900, "random": 100000, "exh_len": 12}}
+TIERS = {"quick": {"shards": 16, "budget_s": 120, "random": 2000, "exh_len": 8, "long": 6},
+         "thorough": {"shards": 16, "budget_s": 900, "random": 100000, "exh_len": 12, "long": 400}}
 RULE = ("Histories read^k, rewind, read^j, rewind, [read^i, rewind] on AudioReader(record=True) and Recorder, k from 0 to past "
         "the end, over source kinds / formats / block / hop / max_read as in C10; bounded-exhaustive core on a bytes source "
         "(length<=exh_len, block<=4, hop<=block, max_read None/0..length+1, every k and j).  Oracle (FRAME recorder clause): "
@@ -67,6 +67,14 @@ def run_history(ctx, case, history, tmpdir, use_recorder_class):
             return
         vis, blocks = match
         nret = len(got_blocks)
+        # still no rewind: recorded data must not be readable, however much was read
+        step = "data-before-rewind"
+        try:
+            d = reader.data
+            ctx.violation("data-readable-before-first-rewind", {"case": cj, "after_reads": history[0], "got_len": None if d is None else len(d)})
+            return
+        except Exception:
+            ctx.count("data_before_rewind_raised_after_reads")
         hop = reader.hop_size
         block = reader.block_size
         consumed = 0 if nret == 0 else min((nret - 1) * hop + block, vis)
@@ -175,6 +183,18 @@ def run_shard(ctx):
     tmpdir = tempfile.mkdtemp(prefix="vf-c19-")
     try:
         exhaustive_core(ctx, conf, tmpdir)
+        # long histories: hundreds of blocks before the first rewind
+        rng = ctx.rng("long")
+        for i in range(conf["long"]):
+            block = rng.choice((1, 2, 3))
+            hop = rng.choice((None, block, max(1, block - 1)))
+            nblocks = rng.choice((255, 256, 257, 300, 513, 600))
+            case = dict(bfrac=0, hfrac=0, width=rng.choice((1, 2)), channels=1, rate=100, block=block, hop=hop,
+                        nsamples=block * nblocks + rng.randint(0, 2), max_read_samples=rng.choice((None, None, block * nblocks - 1)),
+                        kind=rng.choice(("bytes", "raw_lazy", "wav_obj")), extra_reads=1, record=True, seed=rng.getrandbits(32))
+            k = rng.choice((nblocks - 1, nblocks, nblocks + 3, 256, 257))
+            run_history(ctx, case, [k, rng.choice((0, 3, k)), 1], tmpdir, use_recorder_class=rng.random() < 0.5)
+            ctx.count("long_histories")
         rng = ctx.rng("random")
         for i in range(conf["random"]):
             case = RC.random_reader_case(rng, small=(i % 5 != 0))
@@ -207,5 +227,5 @@ def inconclusive(merged, tier):
     c = merged["counters"]
     need = ["histories", "rewinds", "replayed_reads", "data_before_rewind_raised", "histories_with_overlap",
             "histories_with_max_read", "histories_rewound_after_zero_reads", "histories_read_past_the_end",
-            "histories_rewound_after_partial_read", "non_recording_attribute_checks", "exhaustive_core_histories"]
+            "histories_rewound_after_partial_read", "non_recording_attribute_checks", "exhaustive_core_histories", "long_histories", "data_before_rewind_raised_after_reads"]
     return [f"monitor never observed {k}" for k in need if c.get(k, 0) == 0]
